@@ -48,6 +48,8 @@ func stmt(kind string, lo, hi int64) string {
 		return "SELECT * FROM m, m2" + where
 	case "count2":
 		return "SELECT count(w) FROM m2" + where
+	case "explain": // cost estimation: fans out like the select it explains
+		return "EXPLAIN SELECT v FROM m" + where
 	}
 	return ""
 }
@@ -195,7 +197,7 @@ func step(c *clusterh.Cluster, shards *[]uint64, st *runState, f []string) (res 
 			return "bad-op"
 		}
 		c.Served()
-		st.q, st.coord, st.lo, st.hi, st.sources = true, i, i64(f[3]), i64(f[4]), sources(f[2])
+		st.q, st.coord, st.lo, st.hi, st.sources = f[2] != "explain", i, i64(f[3]), i64(f[4]), sources(f[2]) // a cost estimate reads nothing
 		rows, err := c.Query(i, stmt(f[2], i64(f[3]), i64(f[4])))
 		if err != nil {
 			if os.Getenv("VERIF_DEBUG") != "" {
@@ -205,6 +207,14 @@ func step(c *clusterh.Cluster, shards *[]uint64, st *runState, f []string) (res 
 		}
 		if rows == "" {
 			rows = "-"
+		}
+		if f[2] == "explain" {
+			// the cost estimate counts every needed shard that exists once
+			k := 0 // no plan at all: nobody knows the field, nothing would be read
+			if i := strings.Index(rows, "NUMBER OF SHARDS: "); i >= 0 {
+				fmt.Sscanf(rows[i+len("NUMBER OF SHARDS: "):], "%d", &k)
+			}
+			return fmt.Sprintf("ok shards=%d", k)
 		}
 		return "ok " + rows
 	case "served":
@@ -320,7 +330,7 @@ func genCase(r *fw.Rand) fw.Case {
 		if r.Intn(3) == 0 {
 			lo, hi = base, base+int64(ngroups)*groupLen
 		}
-		kind := []string{"raw", "rawdesc", "count", "sum", "star", "star2", "both", "count2"}[r.Intn(8)]
+		kind := []string{"raw", "rawdesc", "count", "sum", "star", "star2", "both", "count2", "explain", "explain"}[r.Intn(10)]
 		ops = append(ops, fmt.Sprintf("q %d %s %d %d", c, kind, lo, hi), "served")
 	}
 	for i := 0; i < 2+r.Intn(3); i++ {
@@ -426,6 +436,37 @@ func genSlowCase(r *fw.Rand, n int) fw.Case {
 	return fw.Case{Ops: ops, Tags: []string{fmt.Sprintf("nodes=%d", n), "slow"}}
 }
 
+// genDoubleFailover: five nodes; a coordinator that owns nothing; one group with a shard owned
+// by three nodes (two of them down) and a shard that shares its first choice with it: the
+// fall-back takes more than one round, and a round may succeed for one shard while it fails
+// for the other. Everything is still servable: every statement must answer, each shard once.
+func genDoubleFailover(r *fw.Rand) fw.Case {
+	p := r.Perm(5)
+	C, a, b, c, d := p[0], p[1], p[2], p[3], p[4]
+	ops := []string{"creset 5"}
+	perm3 := [][]int{{a, b, c}, {b, a, c}, {a, c, b}, {c, a, b}}[r.Intn(4)]
+	ops = append(ops, fmt.Sprintf("sg %d %d %d,%d,%d/%d,%d", base, base+groupLen, perm3[0], perm3[1], perm3[2], a, d))
+	if r.Intn(2) == 0 {
+		ops = append(ops, fmt.Sprintf("sg %d %d %d,%d", base+groupLen, base+2*groupLen, b, d))
+	}
+	for i := 0; i < 3; i++ {
+		g := int64(0)
+		if i == 2 {
+			g = 1
+		}
+		if i == 2 && len(ops) < 3 {
+			break
+		}
+		ops = append(ops, fmt.Sprintf("data %d %d %d %d %d", i, 1+r.Intn(8), base+g*groupLen+int64(i)+int64(r.Intn(5))*100, 1000*(1+int64(r.Intn(3))), r.Intn(1000)-300))
+	}
+	ops = append(ops, fmt.Sprintf("down %d", a), fmt.Sprintf("down %d", b))
+	for k := 0; k < 10; k++ {
+		kind := []string{"explain", "explain", "star", "count", "raw", "sum"}[r.Intn(6)]
+		ops = append(ops, fmt.Sprintf("q %d %s %d %d", C, kind, base, base+2*groupLen-1), "served")
+	}
+	return fw.Case{Ops: ops, Tags: []string{"nodes=5", "double-failover"}}
+}
+
 func (Prop) Generate(r *fw.Rand, tier string) []fw.Case {
 	n := 40
 	if tier == "thorough" {
@@ -439,6 +480,9 @@ func (Prop) Generate(r *fw.Rand, tier string) []fw.Case {
 			continue
 		}
 		cases = append(cases, genCase(r.Fork()))
+		if i%8 == 5 {
+			cases = append(cases, genDoubleFailover(r.Fork()))
+		}
 	}
 	return cases
 }
@@ -505,6 +549,32 @@ func (r *ref) servable(c int, sh *rshard) (bool, string) {
 }
 
 func (r *ref) query(c int, kind string, lo, hi int64) (string, string) {
+	if kind == "explain" {
+		// the cost estimate: complete (every needed shard that exists counted once) or an
+		// error; when no needed shard holds anything there is nothing to count
+		n, unreachable := 0, false
+		for _, sh := range r.shards {
+			if !(sh.lo <= hi && sh.hi > lo) {
+				continue
+			}
+			if len(sh.pts) > 0 {
+				n++
+			}
+			ok := false
+			for _, o := range sh.owners {
+				if o == c || (r.status[o] != "down" && r.status[o] != "slow") {
+					ok = true
+				}
+			}
+			if !ok {
+				unreachable = true
+			}
+		}
+		if n > 0 && unreachable {
+			return "error", "a needed shard has no owner that answers"
+		}
+		return fmt.Sprintf("ok shards=%d", n), ""
+	}
 	var pts []rpt
 	var needed []*rshard
 	known := false
@@ -527,6 +597,16 @@ func (r *ref) query(c int, kind string, lo, hi int64) (string, string) {
 		if !metaOK {
 			return "error", "every owner down or refusing"
 		}
+	}
+	if kind == "explain" {
+		// the cost estimate counts every needed shard that exists once
+		n := 0
+		for _, sh := range needed {
+			if len(sh.pts) > 0 {
+				n++
+			}
+		}
+		return fmt.Sprintf("ok shards=%d", n), ""
 	}
 	if !known && kind != "count" && kind != "count2" {
 		return "ok -", "" // nobody knows the field: nothing is iterated anywhere
@@ -680,6 +760,9 @@ func (Prop) Oracle(c fw.Case, out []string) fw.Verdict {
 				sig := "a query answers although a needed shard could not be read completely"
 				if strings.Contains(why, "drops between two frames") {
 					sig = "a query answers with the part of a remote stream received before the connection dropped"
+				}
+				if f[2] == "explain" && o == "ok shards=0" {
+					sig = "a cost estimate is empty although the only shards that know the field have no owner that answers"
 				}
 				return fw.Verdict{OK: false, Why: fmt.Sprintf("%s answered %.300s but %s: it must fail", op, o, why), Signature: sig}
 			case o == "error":
